@@ -141,8 +141,73 @@ const CHAR_POOL: &[char] = &[
     '€', '日', '本', '語', '\u{2028}', '\u{feff}', '\u{85}', '😀', '𝄞', '\u{10ffff}', '\u{7f}', '\u{0}',
 ];
 
+/// a radix literal with up to ~130 significant bits, often shaped like a rounding tie
+pub fn rand_radix_literal(rng: &mut Rng) -> String {
+    let (prefix, radix) = *rng.pick(&[("0x", 16u32), ("0X", 16), ("0o", 8), ("0O", 8), ("0b", 2), ("0B", 2)]);
+    let digit = |rng: &mut Rng, radix: u32| std::char::from_digit(rng.below(radix as usize) as u32, radix).unwrap();
+    let mut t = String::from(prefix);
+    let ndigits = match radix { 16 => 1 + rng.below(34), 8 => 1 + rng.below(45), _ => 1 + rng.below(130) };
+    match rng.below(4) {
+        0 => {
+            // 1, zeros, then a short tail: half-way cases for round-to-nearest-even
+            t.push('1');
+            for _ in 0..ndigits {
+                t.push('0');
+            }
+            for _ in 0..1 + rng.below(3) {
+                t.push(digit(rng, radix));
+            }
+        }
+        1 => {
+            for _ in 0..ndigits {
+                t.push(std::char::from_digit(radix - 1, radix).unwrap());
+            }
+        }
+        _ => {
+            for _ in 0..ndigits {
+                t.push(digit(rng, radix));
+            }
+        }
+    }
+    if rng.chance(1, 10) {
+        t.push(*rng.pick(&['g', '8', '2', ' ', '.']));
+    }
+    if rng.chance(1, 4) {
+        t = t.to_uppercase().replace("0X", "0x").replace("0O", "0o").replace("0B", "0b");
+    }
+    t
+}
+
+/// a decimal literal with many digits / extreme exponents
+pub fn rand_long_decimal(rng: &mut Rng) -> String {
+    let mut t = String::new();
+    if rng.chance(1, 3) {
+        t.push(*rng.pick(&['-', '+']));
+    }
+    for _ in 0..rng.below(40) {
+        t.push((b'0' + rng.below(10) as u8) as char);
+    }
+    if rng.chance(1, 2) {
+        t.push('.');
+        for _ in 0..rng.below(40) {
+            t.push((b'0' + rng.below(10) as u8) as char);
+        }
+    }
+    if rng.chance(1, 2) {
+        t.push(*rng.pick(&['e', 'E']));
+        if rng.chance(1, 2) {
+            t.push(*rng.pick(&['-', '+']));
+        }
+        let lim = *rng.pick(&[5usize, 40, 330, 400, 100000]);
+        t.push_str(&format!("{}", rng.below(lim)));
+    }
+    t
+}
+
 pub fn rand_string(rng: &mut Rng) -> String {
-    match rng.below(10) {
+    match rng.below(12) {
+        10 => rand_radix_literal(rng),
+        11 => rand_long_decimal(rng),
         0..=2 => rng.pick(&strings()).to_string(),
         3..=4 => {
             // numeric-looking
